@@ -60,8 +60,16 @@ def r1(ctx: Context, sites) -> None:
         if f is None or not _is_sql_broker(c, sites):
             continue
         n += 1
+        opt, why_not = _optimistic_claim(ctx, c, f, sites)
         for r in sqlite_critical_section(ctx.repo, f, sites):
-            ctx.add("R1", r.key, r.ok, r.where, r.detail)
+            if opt and not r.ok and ("::lock-before-read::" in r.key or "::no-commit-between::" in r.key):
+                # optimistic pop: the unlocked SELECT only PROPOSES a row; ownership is decided by the keyed DELETE's rowcount
+                ctx.ok("R1", r.key, r.where, "optimistic claim on never-reused AUTOINCREMENT ids: read outside the lock is harmless")
+                continue
+            detail = r.detail
+            if not r.ok and why_not and ("::lock-before-read::" in r.key or "::no-commit-between::" in r.key):
+                detail += f" (and it is not a sound optimistic claim either: {why_not})"
+            ctx.add("R1", r.key, r.ok, r.where, detail)
         fs = [s for s in sites if s.func is f]
         sel = [s for s in fs if s.verb == "SELECT"]
         dele = [s for s in fs if s.verb == "DELETE"]
@@ -108,6 +116,36 @@ def r1(ctx: Context, sites) -> None:
                     ok = not g.reaches(a.id, b.id)
                     ctx.add("R1", f"{f.qualname}::no-write-on-empty", ok, f.loc(r), "" if ok else "a write is reachable after the empty-queue return")
     ctx.floor("R1", "SQL brokers", n, 1)
+
+
+def _optimistic_claim(ctx: Context, cls, f: FuncInfo, sites) -> tuple[bool, str]:
+    """peek (SELECT, unlocked) + claim (DELETE by the fetched primary key) is exactly-once iff the id is returned only when
+    the DELETE removed a row (rowcount), and a primary key value can never denote a different message later: the key is
+    AUTOINCREMENT and nothing resets sqlite_sequence.  Returns (sound, reason when not)."""
+    fs = [s for s in sites if s.func is f]
+    dele = [s for s in fs if s.verb == "DELETE"]
+    if len(dele) != 1:
+        return False, ""
+    d = dele[0]
+    rc_names = set()
+    for n in walk_no_nested(f.node):
+        if isinstance(n, ast.Assign) and isinstance(n.value, ast.Attribute) and n.value.attr == "rowcount" and any(x is d.call for x in ast.walk(n.value)):
+            rc_names |= {t.id for t in n.targets if isinstance(t, ast.Name)}
+    if not rc_names:
+        return False, ""  # not an optimistic claim at all: the ordinary critical-section rule applies
+    pm = parent_map(f.node)
+    rets = [r for r in walk_no_nested(f.node) if isinstance(r, ast.Return) and r.value is not None and not (isinstance(r.value, ast.Constant) and r.value.value is None)]
+    for r in rets:
+        guarded = any(isinstance(a, ast.If) and (names_in(a.test) & rc_names) and any(r is x for b in a.body for x in ast.walk(b)) and not (isinstance(a.test, ast.UnaryOp) and isinstance(a.test.op, ast.Not)) for a in _ancestors(pm, r))
+        if not guarded:
+            return False, "an id is returned without testing that this consumer's DELETE removed the row"
+    ddl = [s for s in sites if s.func.cls is cls and s.verb.startswith("CREATE TABLE") and any(t in s.template for t in sqlmini.tables_of(d.template))]
+    if not ddl or not re.search(r"INTEGER\s+PRIMARY\s+KEY\s+AUTOINCREMENT", ddl[0].template, re.I):
+        return False, "the queue's primary key is not AUTOINCREMENT: a deleted id can be handed to a later message"
+    for s in sites:
+        if "SQLITE_SEQUENCE" in s.template.upper() and not s.verb.startswith("SELECT"):
+            return False, f"{s.func.qualname} writes sqlite_sequence ({s.where}): after that reset a new message can get the id of a row another consumer has already peeked, whose DELETE then removes the NEW message and returns the OLD id"
+    return True, ""
 
 
 def _ancestors(pm, node):
